@@ -519,7 +519,8 @@ pub fn gen_case(prop: &str, rng: &mut Rng) -> Case {
                     if drop_vector {
                         sh.dropped = true;
                     }
-                    steps.push(Step::PollPreempted { j: rng.below(sh.consumers), at: *rng.pick(&[0u8, 0, 1, 1, 2, 3, 4, 6]), ops, drop_vector });
+                    let as_tx = rng.chance(1, 4);
+                    steps.push(Step::PollPreempted { j: rng.below(sh.consumers), at: *rng.pick(&[0u8, 0, 1, 1, 2, 3, 4, 6]), ops, drop_vector, as_tx });
                 } else {
                     steps.push(Step::Poll(rng.below(sh.consumers)));
                 }
